@@ -263,3 +263,49 @@ func VP_C12_V0_k4_smallcache() { vpC12V0(4, 2, 2, 1, false, false) }
 func VP_C12_V0_k3_3tx()        { vpC12V0(3, 3, 2, 2, false, true) }
 func VP_C12_V0_Reap_n2()       { vpC12V0Reap(2) }
 func VP_C12_V0_Reap_n3()       { vpC12V0Reap(3) }
+
+// reaping when transaction lengths sit on the boundaries of the length prefix of the block encoding
+// (1-byte / 2-byte varint): the byte limit is about the encoded size of the reaped list, which the
+// harness computes itself (tag + uvarint(len) + payload per transaction).
+func vpEncodedTxSize(n int) int64 {
+	v := 1
+	for x := n; x >= 0x80; x >>= 7 {
+		v++
+	}
+	return int64(1 + v + n)
+}
+
+func VP_C12_V0_ReapSizes() {
+	cfg := config.DefaultMempoolConfig()
+	cfg.Size, cfg.CacheSize, cfg.MaxTxsBytes, cfg.MaxTxBytes = 3, 3, 1 << 20, 1 << 16
+	app := &vpApp{}
+	app.verdict = func(req abci.RequestCheckTx) *abci.ResponseCheckTx {
+		return &abci.ResponseCheckTx{Code: 0, GasWanted: 1}
+	}
+	mem := NewCListMempool(cfg, app, 1)
+	lens := []int{1, 127, 128, 200, 255, 256, 16383, 16384}
+	var sizes []int64
+	for j := 0; j < 3; j++ {
+		n := lens[vp.Choice("tx-length", len(lens))]
+		tx := make([]byte, n)
+		tx[0] = byte(j + 1)
+		if err := mem.CheckTx(tx, nil, mempool.TxInfo{SenderID: 1}); err != nil {
+			panic(err)
+		}
+		sizes = append(sizes, vpEncodedTxSize(n))
+		vp.Assert(types.ComputeProtoSizeForTxs([]types.Tx{tx}) == vpEncodedTxSize(n), "C12.v0.encoded-size-of-a-transaction-is-tag-plus-length-prefix-plus-payload")
+	}
+	vp.Reach("admitted")
+	maxBytes := vp.Int64("reap-max-bytes")
+	vp.Assume(maxBytes >= -1 && maxBytes <= 1<<17)
+	r := mem.ReapMaxBytesMaxGas(maxBytes, -1)
+	var sz int64
+	for i := range r {
+		vp.Assert(len(r[i]) > 0 && int(r[i][0]) == i+1, "C12.v0.reap-bytes-gas-is-a-prefix-in-arrival-order")
+		sz += sizes[i]
+	}
+	vp.Assert(maxBytes < 0 || sz <= maxBytes, "C12.v0.reap-respects-byte-limit(encoded-size,length-prefix-boundaries)")
+	if len(r) < 3 {
+		vp.Assert(maxBytes >= 0 && sz+sizes[len(r)] > maxBytes, "C12.v0.reap-prefix-is-maximal(encoded-size)")
+	}
+}
